@@ -54,7 +54,7 @@ def imageStr (recs : List Ent) : String :=
 
 def fileObs (s : FileStore) (crash : Bool) (pts : List (String × List Ent)) : String :=
   if s.hole then "unmodelled" else
-  s!"{s.last} {showEnts s.entries} - buffered ok disk={showEnts s.recs} dur={imageStr s.dur} re={imageStr s.recs}" ++
+  s!"{s.last} {showEnts s.entries} {showBoundary s.boundary} buffered ok disk={showEnts s.recs} dur={imageStr s.dur} re={imageStr s.recs}" ++
   (if crash then " {" ++ ",".intercalate (pts.map fun p => s!"{p.1}>{imageStr p.2}") ++ "}" else "")
 
 def rocksObs (s : RocksStore) : String :=
